@@ -4,6 +4,10 @@ attached data belong to the converged solution; runaway; history independence.
 A case is a *history* of public calls on one WallGoManager (generated as one value so that it
 shrinks and replays as one value).  Sub-oracles (DESIGN 3/C01):
   labelling      success=False <=> ERROR ; RUNAWAY => no velocity ; success+DEFLAGRATION => finite v
+  labelling-unconverged
+                 a success with finite v is never built on a pressure evaluation that ran out of its iteration
+                 budget (observed from outside: the solver's 'has not converged' log record during the LAST
+                 wallPressure call of solveWall; configurations with maxIterations 2 and 3 make it reachable)
   bracket        p(v - k errTol) < 0 < p(v + k errTol) re-evaluated through the public EOM
   window         vMin <= v <= min(vJ, fastestDeflag())
   attached       T+/T-/vJ are those of findHydroBoundaries(v); widths/offsets/profiles are those of a
@@ -34,7 +38,7 @@ RULE = (
     "success with finite velocity or a clean runaway. Distinct by canonical JSON of the history."
 )
 BUDGET = {
-    "quick": {"cases": 32, "shrink": False, "dedupe": True, "time_cap_s": 900, "max_discard": 0.5},
+    "quick": {"cases": 48, "shrink": False, "dedupe": True, "time_cap_s": 900, "max_discard": 0.5},
     "thorough": {"cases": 480, "shrink": False, "dedupe": True, "time_cap_s": 6 * 3600,
                  "max_discard": 0.5},
 }
@@ -81,6 +85,10 @@ CFGS = [
      "wallThicknessBounds": [0.1, 4.0]},
     {"spatialGridSize": 30, "momentumGridSize": 5, "errTol": 1e-3, "pressRelErrTol": 0.1, "maxIterations": 20,
      "wallThicknessBounds": [4.2, 100.0]},
+    # a small budget for the pressure iteration: evaluations that run out of it are flagged by the solver
+    # (logged + successWallPressure False) and a result built on such an evaluation must be an ERROR
+    {"spatialGridSize": 30, "momentumGridSize": 5, "errTol": 1e-3, "pressRelErrTol": 0.1, "maxIterations": 3},
+    {"spatialGridSize": 20, "momentumGridSize": 5, "errTol": 1e-3, "pressRelErrTol": 0.1, "maxIterations": 2},
 ]
 SETTINGS = [
     {"offEq": False, "mfp": 50.0, "thick": 5.0},
@@ -288,6 +296,12 @@ def check_solution(v, manager, cf, rel, r, settings, cls, first_time):
         # bit-identical history oracle still apply to off-equilibrium solves.
         v.label("bracket_skipped:off_equilibrium")
         return
+    if manager.config.configEOM.maxIterations < 10:
+        # With a tiny iteration budget the oracle's own pressure evaluations at v +- k errTol may run out of it
+        # (the returned number is then a mean of unconverged iterates, not the pressure): bracket / re-convergence
+        # oracles are asserted for the configurations with a realistic budget only.
+        v.label("bracket_skipped:low_iteration_cap")
+        return
     if not manager.config.configEOM.conserveEnergyMomentum:
         # With conserveEnergyMomentum=False the temperature/velocity profiles are frozen at the ones
         # computed from the *starting* wall shape, so the pressure at a given v depends on the
@@ -399,6 +413,69 @@ def check_solution(v, manager, cf, rel, r, settings, cls, first_time):
         if dT > TOLERANCES["reconverged_profile_rel"] or dv > TOLERANCES["reconverged_profile_rel"]:
             v.fail("attached-reconverged", cls_a,
                    f"reported T/v profiles differ from the re-converged ones: dT/Tn={dT:.3e} dv={dv:.3e}")
+
+
+class _CapObserver:
+    """Observes, from outside, which EOM.wallPressure calls ran out of their iteration budget: the solver logs
+    'Pressure for a wall velocity has not converged ...' at that point (equationOfMotion.py, wallPressure).
+    `calls` gets one bool per wallPressure call made while the observer is active."""
+
+    def __init__(self):
+        self.calls = []
+        self._hit = False
+
+    def __enter__(self):
+        import logging
+
+        from WallGo.equationOfMotion import EOM
+
+        obs = self
+
+        class H(logging.Handler):
+            def emit(self, record):
+                try:
+                    if "has not converged to" in record.getMessage():
+                        obs._hit = True
+                except Exception:  # noqa: BLE001
+                    pass
+
+        self._handler = H(level=logging.WARNING)
+        root = logging.getLogger()
+        self._state = (root.manager.disable, root.level)
+        logging.disable(logging.NOTSET)
+        if root.level > logging.WARNING or root.level == logging.NOTSET:
+            root.setLevel(logging.WARNING)
+        # WallGoManager.setVerbosity installs a StreamHandler on the root logger (basicConfig(force=True)):
+        # park the other handlers so that nothing is printed while records are observed
+        self._parked = list(root.handlers)
+        for h in self._parked:
+            root.removeHandler(h)
+        root.addHandler(self._handler)
+        self._orig = EOM.wallPressure
+        orig = self._orig
+
+        def wrapped(eom, *a, **k):
+            obs._hit = False
+            out = orig(eom, *a, **k)
+            obs.calls.append(bool(obs._hit))
+            return out
+
+        EOM.wallPressure = wrapped
+        self._EOM = EOM
+        return self
+
+    def __exit__(self, *exc):
+        import logging
+
+        self._EOM.wallPressure = self._orig
+        root = logging.getLogger()
+        root.removeHandler(self._handler)
+        if not root.handlers:   # (a manager created inside the observed call would have installed a new one)
+            for h in self._parked:
+                root.addHandler(h)
+        root.setLevel(self._state[1])
+        logging.disable(self._state[0])
+        return False
 
 
 def model_particles(manager):
@@ -518,13 +595,27 @@ def _run_history(case, v: Verdict, coll, coll_dir):
             settings = case["settings"][sidx]
             key = (point, conf, sidx)
             cls = f"{spec_of[point]['family']} M={cfg_of[conf]['spatialGridSize']} cons={cfg_of[conf].get('conserveEnergyMomentum', True)}"
+            obs = _CapObserver()
             try:
-                r = manager.solveWall(e2e.settings_obj(settings))
+                with obs:
+                    r = manager.solveWall(e2e.settings_obj(settings))
             except (WallGo.WallGoError, WallGo.CollisionLoadError) as exc:
                 v.label("solve_wallgoerror")
                 summ = {"error": str(exc)[:200]}
                 r = None
             if r is not None:
+                # 1'. an unsuccessful run is always labelled as an error: all reported data come from the LAST
+                #     pressure evaluation of solveWall (the one at the root); if that evaluation ran out of its
+                #     iteration budget the result is not converged and must not be a success
+                v.checked("labelling-unconverged")
+                v.label(f"cap_hit_in_solve:{'last' if obs.calls and obs.calls[-1] else ('some' if any(obs.calls) else 'none')}")
+                if (r.success and r.wallVelocity is not None and math.isfinite(r.wallVelocity)
+                        and obs.calls and obs.calls[-1]):
+                    v.fail("labelling-unconverged", cls,
+                           f"success=True ({r.solutionType.name}, v={r.wallVelocity}) although the pressure evaluation at the "
+                           f"reported velocity ran out of its iteration budget maxIterations="
+                           f"{manager.config.configEOM.maxIterations} (solver logged 'has not converged'); "
+                           f"{sum(obs.calls)} of {len(obs.calls)} pressure evaluations hit the cap")
                 first = key not in seen
                 check_solution(v, manager, cf, rel, r, settings, cls, first_time=first)
                 summ = e2e.results_summary(r, profiles=False)
